@@ -124,9 +124,13 @@ func c06Regexps(f parse.Filter, acc map[string]*regexp.Regexp) {
 }
 
 func c06ReTable(q string, res *benchfmt.Result) hx.Sx {
+	return hx.List(c06ReTableList(q, res))
+}
+
+func c06ReTableList(q string, res *benchfmt.Result) []hx.Sx {
 	f, err := parse.ParseFilter(q)
 	if err != nil {
-		return hx.L()
+		return nil
 	}
 	acc := map[string]*regexp.Regexp{}
 	c06Regexps(f, acc)
@@ -143,7 +147,7 @@ func c06ReTable(q string, res *benchfmt.Result) hx.Sx {
 			l = append(l, hx.L(hx.S(k), hx.S(c), hx.Bool(re.MatchString(c))))
 		}
 	}
-	return hx.List(l)
+	return l
 }
 
 func sortStrings(a []string) {
@@ -746,8 +750,237 @@ func c06SpellSeq(o *hx.Out, r *hx.Rng, nA, nB int) error {
 	return c06SeqOn(o, r, A, inA, B, inB, q, "spell/")
 }
 
+// ---- histories on ONE Filter and ONE ProjectionParser: Parse / ParseWithUnit
+// calls that FAIL in a later field after an earlier field carried a fixed value
+// list, with Match / Apply of further results and later successful Parse calls
+// through the same Filter ----
+
+type c06HistStep struct {
+	Op     string      `json:"op"` // Parse, ParseWithUnit, Match, Apply
+	Proj   string      `json:"projection,omitempty"`
+	Failed bool        `json:"failed,omitempty"`
+	Name   string      `json:"name,omitempty"`
+	Config [][3]string `json:"config,omitempty"`
+	Units  [][2]string `json:"units,omitempty"`
+}
+type c06HistInput struct {
+	Kind   string        `json:"kind"` // history
+	Filter string        `json:"filter"`
+	Steps  []c06HistStep `json:"steps"`
+}
+
+// fixed fields (no .fullname: its extractor freezes at the first result seen)
+// that tell the pool of c06HistResult apart, other valid fields, and fields
+// that are rejected for a SEMANTIC reason only after the fields before them
+// have been processed
+var c06HistFixed = []string{"/size@(4k)", "/size@(8k 16k)", "/k@(1)", "/k@(2 3)", ".name@(Fib)", ".name@(X Sort)", "goos@(linux)", "goos@(darwin plan9)",
+	"/gomaxprocs@(2)", "pkg@(nosuch)", `goarch@("")`, "/k@(zz)", `"a b"@("x y")`}
+var c06HistPlain = []string{"/k", ".name", "goos", "pkg", ".config", ".fullname", "/size@alpha", "/gomaxprocs@num", "goarch@first"}
+var c06HistBad = []string{".name@nosuchorder", ".unit", ".config@(a b)", "goos@fixed", "/k@bogus", ".unit@alpha", `""`, "pkg@Alpha", ".config@fixed", ".fullname@nosuchorder"}
+
+func c06HistResult(r *hx.Rng, n int) (*benchfmt.Result, c06Input) {
+	res, in := c06Result(r, n)
+	if r.Chance(0.6) {
+		name := r.Pick([]string{"Sort/size=4k/gomaxprocs=2", "Sort/size=8k", "Sort/size=4k", "Fib/k=1/size=4k", "X/k=2/size=16k", "Fib/k=3-2", "Sort/size=4k-8", "X/size=2k/k=1"})
+		res.Name = benchfmt.Name(name)
+		in.Name = name
+	}
+	return res, in
+}
+
+func c06Hist(o *hx.Out, r *hx.Rng, directed int) (err error) {
+	defer func() {
+		if p := recover(); p != nil {
+			err = fmt.Errorf("PANIC-INPUT history: %v", p)
+		}
+	}()
+	// the pool of results the Filter keeps being used on
+	var pool []*benchfmt.Result
+	var pin []c06Input
+	for i := r.Range(2, 4); i > 0; i-- {
+		res, in := c06HistResult(r, []int{1, 2, 3, 5, 33}[r.Intn(5)])
+		pool, pin = append(pool, res), append(pin, in)
+	}
+	q := "*"
+	if directed < 0 && r.Chance(0.5) {
+		var cands []string
+		for _, res := range pool {
+			cands = append(cands, c06Candidates(res)...)
+		}
+		q = c06Expr(r, r.Range(0, 2), cands)
+	}
+	flt, ferr := benchproc.NewFilter(q)
+	if ferr != nil {
+		return fmt.Errorf("generated filter %q rejected: %v", q, ferr)
+	}
+	var pp benchproc.ProjectionParser
+	in := c06HistInput{Kind: "history", Filter: q}
+	var steps []hx.Sx
+	var rt []hx.Sx
+	for _, res := range pool {
+		rt = append(rt, c06ReTableList(q, res)...)
+	}
+	sep := func() string { return r.Pick([]string{" ", ",", ", ", "  "}) }
+	parse := func(pe string, withUnit bool) bool {
+		var perr error
+		op := "Parse"
+		if withUnit {
+			op = "ParseWithUnit"
+			_, _, perr = pp.ParseWithUnit(pe, flt)
+		} else {
+			_, perr = pp.Parse(pe, flt)
+		}
+		steps = append(steps, hx.L(hx.I(0), hx.S(pe), hx.Bool(withUnit), hx.Bool(perr == nil)))
+		in.Steps = append(in.Steps, c06HistStep{Op: op, Proj: pe, Failed: perr != nil})
+		return perr == nil
+	}
+	use := func(k int) error {
+		res, rin := pool[k], pin[k]
+		n := len(res.Values)
+		name, cfgs, units := c06ResSx(res)
+		if r.Chance(0.6) {
+			m, merr := flt.Match(res)
+			if merr != nil {
+				return merr
+			}
+			matched, _ := c06Matched(m, n)
+			steps = append(steps, hx.L(hx.I(1), name, cfgs, units, matched, hx.Bool(m.All()), hx.Bool(m.Any())))
+			in.Steps = append(in.Steps, c06HistStep{Op: "Match", Name: rin.Name, Config: rin.Config, Units: rin.Units})
+			return nil
+		}
+		app := c06Clone(res)
+		ret, aerr := flt.Apply(app)
+		if aerr != nil {
+			return aerr
+		}
+		var rem []hx.Sx
+		for _, v := range app.Values {
+			rem = append(rem, hx.I(int(v.Value)))
+		}
+		steps = append(steps, hx.L(hx.I(2), name, cfgs, units, hx.List(rem), hx.Bool(ret)))
+		in.Steps = append(in.Steps, c06HistStep{Op: "Apply", Name: rin.Name, Config: rin.Config, Units: rin.Units})
+		return nil
+	}
+	useAll := func() error {
+		for k := range pool {
+			if err := use(k); err != nil {
+				return err
+			}
+		}
+		return nil
+	}
+	// would the fixed field fx drop a pool result the Filter keeps now?
+	excludes := func(fx string) bool {
+		f2, _ := benchproc.NewFilter("*")
+		var p2 benchproc.ProjectionParser
+		if _, e := p2.Parse(fx, f2); e != nil {
+			return false
+		}
+		for _, res := range pool {
+			m0, _ := flt.Match(res)
+			m2, _ := f2.Match(res)
+			if m0.Any() && !m2.Any() {
+				return true
+			}
+		}
+		return false
+	}
+	failing := func() (string, bool) {
+		var fx string
+		for try := 0; ; try++ {
+			fx = c06HistFixed[r.Intn(len(c06HistFixed))]
+			if try >= 8 || excludes(fx) {
+				break
+			}
+		}
+		bad := c06HistBad[r.Intn(len(c06HistBad))]
+		switch directed {
+		case 0:
+			fx, bad = "/size@(4k)", ".name@nosuchorder"
+		case 1:
+			fx, bad = "/size@(4k)", ".unit"
+		case 2:
+			fx, bad = "/size@(4k)", ".config@(a b)"
+		}
+		pe := fx
+		switch {
+		case directed == 0 || directed == 2:
+			pe = fx + " " + bad
+		case directed == 1:
+			pe = fx + "," + bad
+		default:
+			if r.Chance(0.3) { // a valid field first
+				pe = c06HistPlain[r.Intn(len(c06HistPlain))] + sep() + pe
+			}
+			if r.Chance(0.3) { // two fixed lists before the failure
+				pe += sep() + c06HistFixed[r.Intn(len(c06HistFixed))]
+			}
+			if r.Chance(0.2) {
+				pe += sep() + c06HistPlain[r.Intn(len(c06HistPlain))]
+			}
+			pe += sep() + bad
+			if r.Chance(0.2) { // more after the failing field
+				pe += sep() + c06HistFixed[r.Intn(len(c06HistFixed))]
+			}
+		}
+		return pe, excludes(fx)
+	}
+	good := func() string {
+		pe := c06HistPlain[r.Intn(len(c06HistPlain))]
+		if r.Chance(0.6) {
+			pe = c06HistFixed[r.Intn(len(c06HistFixed))]
+		}
+		if r.Chance(0.3) {
+			pe += sep() + c06HistPlain[r.Intn(len(c06HistPlain))]
+		}
+		return pe
+	}
+	if directed < 0 && r.Chance(0.4) {
+		if !parse(good(), r.Chance(0.3)) {
+			o.Count("history:generated-good-projection-rejected")
+		}
+	}
+	if r.Chance(0.5) {
+		if err := use(r.Intn(len(pool))); err != nil {
+			return err
+		}
+	}
+	nontrivial := false
+	nfail := 1
+	if directed < 0 {
+		nfail = r.Range(1, 3)
+	}
+	for j := 0; j < nfail; j++ {
+		pe, ex := failing()
+		if parse(pe, directed < 0 && r.Chance(0.4)) {
+			o.Count("history:projection-meant-to-fail-accepted")
+		} else {
+			o.Count("class:history:Parse-fails-in-a-later-field-after-a-fixed-list,Filter-used-again")
+			if ex {
+				nontrivial = true
+				o.Count("class:history:...and-that-list-alone-would-drop-a-result-the-Filter-keeps")
+			}
+		}
+		if err := useAll(); err != nil {
+			return err
+		}
+		if r.Chance(0.6) { // a later successful Parse through the same Filter
+			if parse(good(), r.Chance(0.3)) {
+				o.Count("class:history:later-successful-Parse-on-the-same-Filter")
+			}
+			if err := useAll(); err != nil {
+				return err
+			}
+		}
+	}
+	o.Count(fmt.Sprintf("history:steps=%d..%d", len(steps)/4*4, len(steps)/4*4+3))
+	o.Add(hx.L(hx.I(4), hx.S(q), c07Oracle(q), hx.List(rt), hx.List(steps)), in,
+		"H"+q+"\x00"+fmt.Sprint(in.Steps), nontrivial, "history")
+	return nil
+}
+
 func genC06(o *hx.Out, r *hx.Rng, tier string, replay string) error {
-	o.Rule = "sequences on ONE Filter: Match(A), then Match/Apply of another result B (other units, other n), then A's (and B's) Match consulted (Test all i, All, Any, Match.Apply) and judged on that result alone; " + "filter expressions generated from the grammar (terms key:value / key:(v OR v) / -term / (expr) / *, AND by juxtaposition or keyword, OR; keys .name .fullname /k /gomaxprocs file keys quoted keys .unit; values literal, quoted, regexp) up to depth 5, evaluated on results with n in {1,2,31,32,33,63,64,65,130} measurements with base and written units; fixed-list projections (1-3 Parse calls on one parser, incl. .fullname next to /k) wrapping such filters; fixed-order: a fixed list on .fullname together with every non-empty subset of {/size, .name, /gomaxprocs} in EVERY field order (the list first, in the middle, last), cut at random into 1-4 Parse calls on one parser, on names carrying those keys and the -N suffix; star: * as a direct operand of OR and of AND next to .unit and whole-result operands, negated and nested (16 templates + fixed texts); spell-one / spell: results whose measurements share the base unit sec/op but were written ns/op, us/op, sec/op or not rescaled, judged by .unit terms (bare, quoted, regexp, value list, negated) that tell the spellings apart, in one result and by one Filter across two results. non-trivial = some but not all measurements match (filters)"
+	o.Rule = "sequences on ONE Filter: Match(A), then Match/Apply of another result B (other units, other n), then A's (and B's) Match consulted (Test all i, All, Any, Match.Apply) and judged on that result alone; " + "filter expressions generated from the grammar (terms key:value / key:(v OR v) / -term / (expr) / *, AND by juxtaposition or keyword, OR; keys .name .fullname /k /gomaxprocs file keys quoted keys .unit; values literal, quoted, regexp) up to depth 5, evaluated on results with n in {1,2,31,32,33,63,64,65,130} measurements with base and written units; fixed-list projections (1-3 Parse calls on one parser, incl. .fullname next to /k) wrapping such filters; fixed-order: a fixed list on .fullname together with every non-empty subset of {/size, .name, /gomaxprocs} in EVERY field order (the list first, in the middle, last), cut at random into 1-4 Parse calls on one parser, on names carrying those keys and the -N suffix; star: * as a direct operand of OR and of AND next to .unit and whole-result operands, negated and nested (16 templates + fixed texts); spell-one / spell: results whose measurements share the base unit sec/op but were written ns/op, us/op, sec/op or not rescaled, judged by .unit terms (bare, quoted, regexp, value list, negated) that tell the spellings apart, in one result and by one Filter across two results; history: ONE Filter and ONE ProjectionParser, Parse / ParseWithUnit calls that FAIL for a semantic reason in a later field (.name@nosuchorder, .unit, .config@(a b), key@fixed, unknown orders, empty key) after earlier fields carried fixed value lists (/size@(4k) .name@nosuchorder; /size@(4k),.unit; 1-2 fixed lists, valid fields before and between), then Match / Apply of 2-4 results through the SAME Filter, later successful Parse calls (with and without fixed lists) and further failing ones, every Match/Apply judged by (fixed lists of the SUCCESSFUL Parse calls so far) and (expression). non-trivial = some but not all measurements match (filters)"
 	ns := []int{1, 2, 31, 32, 33, 63, 64, 65, 130}
 	per := 110
 	perFixed := 60
@@ -792,6 +1025,24 @@ func genC06(o *hx.Out, r *hx.Rng, tier string, replay string) error {
 	}
 	if err := c06Order(o, g, reps); err != nil {
 		return err
+	}
+	// histories with failing Parse calls (own stream)
+	h := r.Split()
+	nhist := 400
+	if tier == "thorough" {
+		nhist = 8000
+	}
+	for d := 0; d < 3; d++ {
+		for i := 0; i < 6; i++ {
+			if err := c06Hist(o, h, d); err != nil {
+				return err
+			}
+		}
+	}
+	for i := 0; i < nhist; i++ {
+		if err := c06Hist(o, h, -1); err != nil {
+			return err
+		}
 	}
 	for _, n := range ns {
 		for i := 0; i < perStar; i++ {
